@@ -218,6 +218,22 @@ def write_replay(prop, case, f):
         json.dump({'property': prop, 'case': case, 'failure': f,
                    'hashseed': os.environ.get('PYTHONHASHSEED'),
                    'how': './check %s --replay %s' % (prop, p)}, fh, indent=1, default=str)
+    # the same case as a plain unit test (no explorer, no pool): /venv/bin/python -m pytest <file>
+    with open(os.path.join(d, 'test_%s_%s.py' % (prop, k)), 'w') as fh:
+        fh.write('''import json, os, sys
+sys.path.insert(0, %r)
+# runs against /repo unless VERIF_REPO names another tree
+from mc import core
+core.bind_repo()
+from checks import %s as check
+
+CASE = json.loads(%r)
+
+
+def test_property_%s_holds_on_recorded_case():
+    r = (getattr(check, 'replay', None) or check.run_case)(CASE)
+    assert not r['fails'], r['fails']
+''' % (VERIF, prop.lower(), json.dumps(case, default=str), prop))
     return p
 
 
